@@ -109,9 +109,51 @@ def strain_stress(repo):
     return out
 
 
+WHOLE = ["displacement", "displacement_norm", "displacement_matrix", "Strain", "Stress"]
+
+
+def index_tables(repo):
+    """`PhaseField.__indexResult` and `Beam._indexResult` evaluated on every component name the simulation advertises
+    (Beam: per dimension, Timoshenko layout for the shear forces): name -> column of the vector result it is read from"""
+    sim = os.path.join(repo, "EasyFEA", "Simulations")
+    mod = ModuleInfo(os.path.join(sim, "_phasefield.py"))
+    it = Interp([mod])
+    c = it.classes.get("PhaseField")
+    if c is None or "__indexResult" not in c.methods:
+        raise Refuse("PhaseField.__indexResult not found")
+    pf = []
+    for name in ("ux", "uy", "uz"):
+        try:
+            v = it.run_body(c.methods["__indexResult"].body, {"self": Obj(c, {}), "__class__": c, "result": name})
+        except Refuse as e:
+            raise Refuse(f"PhaseField.__indexResult('{name}'): {e}")
+        pf.append((name, it.as_int(v)))
+    mod = ModuleInfo(os.path.join(sim, "_beam.py"))
+    it = Interp([mod])
+    c = it.classes.get("Beam")
+    if c is None or "_indexResult" not in c.methods or "Results_Available" not in c.methods:
+        raise Refuse("Beam._indexResult / Results_Available not found")
+    beam = []
+    for dim, dofn in ((1, 1), (2, 3), (3, 6)):
+        obj = Obj(c, {"dim": dim, "useTimoshenko": True, "problemType": None, "Get_dof_n": lambda *a, _d=dofn: Sym.q(_d)})
+        try:
+            names = it.run_body(c.methods["Results_Available"].body, {"self": obj, "__class__": c})
+        except Refuse as e:
+            raise Refuse(f"Beam.Results_Available (dim {dim}): {e}")
+        names = [n for n in names if n not in WHOLE]
+        for name in names:
+            try:
+                v = it.as_int(it.run_body(c.methods["_indexResult"].body, {"self": obj, "__class__": c, "result": name}))
+            except Refuse:
+                v = None        # the source raises for an advertised name
+            beam.append((dim, name, v))
+    return pf, beam
+
+
 def write(repo: str, outdir: str) -> dict:
     kin = kinematic_table(repo)
     ss = strain_stress(repo)
+    pf, beam = index_tables(repo)
     os.makedirs(outdir, exist_ok=True)
     parts = ["""-- GENERATED by tools/py2lean/gen_c16.py from /repo/EasyFEA/Simulations/*.py and Models/_utils.py — do not edit
 import EasyFEAVerif.Model.PExpr
@@ -137,9 +179,15 @@ open EasyFEAVerif
                      f"def components{dim} : List (String × Nat) := [" + ", ".join(f'("{n}", {k})' for n, k in sel) + "]\n\n"
                      f"/-- the radicand of the `vm` result, dim {dim} (variables = rescaled components in storage order) -/\n"
                      f"def vmSquared{dim} : PExpr := {emit.pexpr(vm)}\n\n")
+    parts.append("/-- `PhaseField.__indexResult`: displacement component name -> column -/\n"
+                 "def index_PhaseField : List (String × Nat) := [" + ", ".join(f'("{n}", {k})' for n, k in pf) + "]\n\n"
+                 "/-- `Beam._indexResult` on every component name `Results_Available` lists, per dimension (Timoshenko layout of the shear forces): "
+                 "(dim, name, column or none when the source raises) -/\n"
+                 "def index_Beam : List (Nat × String × Option Nat) := [\n  "
+                 + ",\n  ".join(f'({d}, "{n}", {"none" if k is None else "some " + str(k)})' for d, n, k in beam) + "]\n\n")
     parts.append("end EasyFEAVerif.Gen.C16\n")
     _write_if_changed(os.path.join(outdir, "Results.lean"), "".join(parts))
-    return dict(simulations=list(kin.keys()), names=KIN)
+    return dict(simulations=list(kin.keys()) + ["PhaseField.__indexResult", "Beam._indexResult"], names=KIN, beam_names=len(beam))
 
 
 if __name__ == "__main__":
